@@ -21,6 +21,8 @@
 (* A case is a JSON-native record                                                      *)
 (*   [kind: "assign"|"delete", heap0, flags, root, steps, val: [k,v,steps],             *)
 (*    missing: "none"|"dict"|"list"|"obj", facfail: Nat, ignore: BOOLEAN]               *)
+(* A step with op "x" is the wildcard '*' (T.__star__()): the write is broadcast over    *)
+(* every match in order; atomicity is only claimed for wildcard-free paths.              *)
 (* flags[a] \in {"", "wfault", "dfault", "prop"}: the cell's __setitem__/__setattr__    *)
 (* raises, its __delitem__/__delattr__ raises, its class has a read-only property "r".  *)
 (* facfail = k > 0: the missing-factory raises on its k-th call.                         *)
@@ -158,7 +160,38 @@ TailFill(c, h, b, j, v) ==        \* fill cell N0+j .. N0+d innermost first; ret
        ELSE StoreOp(inner.heap, c.flags, VRef(N0(c) + j), c.steps[b + j],
                     IF j = d THEN v ELSE VRef(N0(c) + j + 1))
 
-RefAssign(c) ==
+\* ---- wildcards: the parents a path with '*' steps reaches, in order -------------------
+HasStar(steps) == \E i \in 1..Len(steps) : steps[i].op = "x"
+RECURSIVE FlattenSeq(_)
+FlattenSeq(ss) == IF ss = <<>> THEN <<>> ELSE Head(ss) \o FlattenSeq(Tail(ss))
+\* '*' enumerates the children in natural order; every later step is applied per child and a
+\* child on which it fails is dropped; a failure outside any wildcard fails the whole access
+RECURSIVE Fan(_, _, _, _)
+Fan(h, cur, steps, i) ==
+  IF i > Len(steps) THEN [ok |-> TRUE, dests |-> <<cur>>]
+  ELSE IF steps[i].op = "x" THEN
+    LET ch == Children(h, cur)
+        sub == [j \in 1..Len(ch) |-> Fan(h, ch[j], steps, i + 1)]
+    IN [ok |-> TRUE, dests |-> FlattenSeq([j \in 1..Len(ch) |-> IF sub[j].ok THEN sub[j].dests ELSE <<>>])]
+  ELSE LET r == StepApply(h, cur, steps[i]) IN
+       IF r.ok THEN Fan(h, r.v, steps, i + 1) ELSE [ok |-> FALSE, dests |-> <<>>]
+
+\* assignment at every match in order; an error at one match ends the broadcast there
+RECURSIVE FoldStore(_, _, _, _, _)
+FoldStore(c, h, dests, j, v) ==
+  IF j > Len(dests) THEN [ok |-> TRUE, heap |-> h]
+  ELSE LET r == StoreOp(h, c.flags, dests[j], FinalStep(c), v) IN
+       IF r.ok THEN FoldStore(c, r.heap, dests, j + 1, v) ELSE [ok |-> FALSE, heap |-> h]
+
+RefStarAssign(c) ==
+  LET v == ValOf(c.heap0, c.root, c.val)
+      fan == Fan(c.heap0, c.root, ParentSteps(c), 1)
+  IN IF ~v.ok THEN Expect(FALSE, "any", FALSE, c.heap0, VNone)
+     ELSE IF ~fan.ok THEN Expect(FALSE, "PathAccessError", FALSE, c.heap0, VNone)
+     ELSE LET r == FoldStore(c, c.heap0, fan.dests, 1, v.v) IN
+          IF r.ok THEN Expect(TRUE, "", FALSE, r.heap, c.root) ELSE Expect(FALSE, "any", FALSE, r.heap, VNone)
+
+RefPlainAssign(c) ==
   LET n == NSteps(c)
       v == ValOf(c.heap0, c.root, c.val)
       par == PathEval(c.heap0, c.root, ParentSteps(c))
@@ -178,9 +211,12 @@ RefAssign(c) ==
              ELSE LET r == StoreOp(tail.heap, c.flags, dest, c.steps[b], VRef(N0(c) + 1)) IN
                   IF r.ok THEN Expect(TRUE, "", FALSE, r.heap, c.root) ELSE failed
 
+\* missing= together with wildcards is not specified by the statement: kept out of the universes
+RefAssign(c) == IF HasStar(c.steps) THEN RefStarAssign(c) ELSE RefPlainAssign(c)
+
 AbsentSegments(c) ==
   LET par == PathEval(c.heap0, c.root, ParentSteps(c)) IN
-  IF par.ok \/ par.idx < 0 \/ c.missing = "none" THEN 0 ELSE NSteps(c) - (par.idx + 1)
+  IF HasStar(c.steps) \/ par.ok \/ par.idx < 0 \/ c.missing = "none" THEN 0 ELSE NSteps(c) - (par.idx + 1)
 
 \* how the final step of a delete relates to its destination (from the statement: a
 \* present / missing key, index or attribute; anything else is not a "missing" case)
@@ -201,7 +237,23 @@ DelClass(h, fl, dest, st) ==
                             ELSE IF f = "dfault" \/ (f = "prop" /\ st.arg = VStr("r")) THEN "fault"
                             ELSE IF HasKey(h[dest.a].items, st.arg) THEN "present" ELSE "missing"
 
-RefDelete(c) ==
+\* del at every match in order (Python semantics: an earlier deletion is visible to a later match)
+RECURSIVE FoldDel(_, _, _, _)
+FoldDel(c, h, dests, j) ==
+  IF j > Len(dests) THEN Expect(TRUE, "", FALSE, h, c.root)
+  ELSE LET k == DelClass(h, c.flags, dests[j], FinalStep(c)) IN
+    CASE k = "present" -> FoldDel(c, DelOp(h, c.flags, dests[j], FinalStep(c)).heap, dests, j + 1)
+      [] k = "missing" -> IF c.ignore THEN FoldDel(c, h, dests, j + 1)
+                          ELSE Expect(FALSE, "PathDeleteError", FALSE, h, VNone)
+      [] OTHER         -> Expect(TRUE, "unspecified", TRUE, h, c.root)   \* not judged
+
+RefStarDelete(c) ==
+  LET fan == Fan(c.heap0, c.root, ParentSteps(c), 1) IN
+  IF ~fan.ok THEN (IF c.ignore THEN Expect(TRUE, "", FALSE, c.heap0, c.root)
+                   ELSE Expect(FALSE, "PathAccessError", FALSE, c.heap0, VNone))
+  ELSE FoldDel(c, c.heap0, fan.dests, 1)
+
+RefPlainDelete(c) ==
   LET par == PathEval(c.heap0, c.root, ParentSteps(c))
       same == Expect(TRUE, "", FALSE, c.heap0, c.root)
   IN IF ~par.ok THEN
@@ -213,16 +265,19 @@ RefDelete(c) ==
          [] OTHER         -> IF c.ignore THEN Expect(TRUE, "", TRUE, c.heap0, c.root)
                              ELSE Expect(FALSE, "any", FALSE, c.heap0, VNone)
 
+RefDelete(c) == IF HasStar(c.steps) THEN RefStarDelete(c) ELSE RefPlainDelete(c)
+
 Ref(c) == IF c.kind = "assign" THEN RefAssign(c) ELSE RefDelete(c)
 
 \* does an outcome (machine's or the library's) conform to the law's expectation?
 \* cls = class of the escaping error, v = returned value, h = heap afterwards
 ConformClause(c, e, ok, cls, v, h) ==
-  IF Len(h) < N0(c) THEN "heap-size"
+  IF e.err = "unspecified" THEN ""
+  ELSE IF Len(h) < N0(c) THEN "heap-size"
   ELSE IF e.lenient THEN (IF Pre(c, h) # c.heap0 THEN "heap-changed" ELSE IF ok /\ v # e.v THEN "returned" ELSE "")
   ELSE IF ok # e.ok THEN (IF e.ok THEN "unexpected-error" ELSE "no-error")
   ELSE IF e.ok THEN (IF v # e.v THEN "returned" ELSE IF h # e.heap THEN "heap-effect" ELSE "")
-  ELSE IF Pre(c, h) # c.heap0 THEN "not-atomic"
+  ELSE IF Pre(c, h) # Pre(c, e.heap) THEN "not-atomic"      \* e.heap = heap0 on wildcard-free paths
   ELSE IF e.err # "any" /\ cls # e.err THEN "error-class"
   ELSE ""
 Conforms(c, e, ok, cls, v, h) == ConformClause(c, e, ok, cls, v, h) = ""
@@ -239,13 +294,14 @@ KeepsEntries(c, h) == \A a \in 1..N0(c) : h[a].cls = c.heap0[a].cls /\ IsPrefix(
 \* ===================================================================================
 \* 3. The mechanism
 \* ===================================================================================
-VARIABLES case, pc, heap, cur, idx, val, stk, nfac, log, out
-mvars == <<case, pc, heap, cur, idx, val, stk, nfac, log, out>>
+VARIABLES case, pc, heap, cur, idx, val, stk, nfac, log, out, queue
+mvars == <<case, pc, heap, cur, idx, val, stk, nfac, log, out, queue>>
 
 St == [case |-> case, pc |-> pc, heap |-> heap, cur |-> cur, idx |-> idx, val |-> val,
-       stk |-> stk, nfac |-> nfac, log |-> log, out |-> out]
+       stk |-> stk, nfac |-> nfac, log |-> log, out |-> out, queue |-> queue]
 Become(s) == /\ case' = s.case /\ pc' = s.pc /\ heap' = s.heap /\ cur' = s.cur /\ idx' = s.idx
              /\ val' = s.val /\ stk' = s.stk /\ nfac' = s.nfac /\ log' = s.log /\ out' = s.out
+             /\ queue' = s.queue
 
 NoOut == [ok |-> TRUE, mech |-> "", v |-> VNone]
 Frame(tgt, lo) == [tgt |-> tgt, lo |-> lo, brk |-> 0]
@@ -256,7 +312,7 @@ AfterFetch(s) == IF s.idx >= NSteps(s.case) THEN [s EXCEPT !.pc = WritePc(s)] EL
 
 Start(c) ==
   LET s == [case |-> c, pc |-> "fetch", heap |-> c.heap0, cur |-> c.root, idx |-> 1, val |-> VNone,
-            stk |-> <<Frame(c.root, 1)>>, nfac |-> 0, log |-> <<>>, out |-> NoOut]
+            stk |-> <<Frame(c.root, 1)>>, nfac |-> 0, log |-> <<>>, out |-> NoOut, queue |-> <<>>]
   IN IF c.kind = "assign" THEN [s EXCEPT !.pc = "evalval"] ELSE AfterFetch(s)
 
 Finish(s, ok, mech) ==
@@ -271,10 +327,16 @@ DoEvalVal(s) ==
 DoFetch(s) ==
   LET c == s.case
       st == c.steps[s.idx]
-      r == StepApply(s.heap, s.cur, st)
+      r == IF st.op = "x" THEN Ok(s.cur) ELSE StepApply(s.heap, s.cur, st)
       s1 == IF Mutant = "factory_per_segment" /\ c.kind = "assign" /\ c.missing # "none" /\ Len(s.stk) = 1
             THEN [s EXCEPT !.nfac = @ + 1, !.log = Append(@, FEv(s.nfac + 1))] ELSE s
-  IN IF r.ok THEN AfterFetch([s1 EXCEPT !.cur = r.v, !.idx = @ + 1])
+  IN IF st.op = "x" THEN
+       \* _t_eval 'x': the rest of the parent path is evaluated per child in recursive calls;
+       \* _apply_for_each then performs the write on every result in order
+       LET fan == Fan(s.heap, s.cur, ParentSteps(c), s.idx) IN
+       IF fan.dests = <<>> THEN Finish(s, TRUE, "")
+       ELSE [s EXCEPT !.cur = Head(fan.dests), !.queue = Tail(fan.dests), !.idx = NSteps(c), !.pc = WritePc(s)]
+     ELSE IF r.ok THEN AfterFetch([s1 EXCEPT !.cur = r.v, !.idx = @ + 1])
      ELSE IF ~Wrapped(st.op, r.exc) THEN Finish(s, FALSE, r.exc)
      ELSE IF c.kind = "delete" THEN                       \* except PathAccessError: if not ignore_missing: raise
             (IF c.ignore THEN Finish(s, TRUE, "") ELSE Finish(s, FALSE, "PathAccessError"))
@@ -309,6 +371,7 @@ DoWrite(s) ==
            ELSE StoreOp(s.heap, c.flags, dest, stp, s.val)
       s1 == [s EXCEPT !.heap = r.heap, !.log = @ \o r.evs]
   IN IF ~r.ok THEN Finish(s1, FALSE, r.exc)
+     ELSE IF s.queue # <<>> THEN [s1 EXCEPT !.cur = Head(s.queue), !.queue = Tail(s.queue)]   \* next match
      ELSE IF Len(s.stk) = 1 THEN Finish(s1, TRUE, "")
      ELSE \* the nested glom returns its target (the new container), which becomes the value the
           \* enclosing Assign stores at its break point:  op, arg = orig.items()[idx];
@@ -333,9 +396,11 @@ DoDel(s) ==
       r == IF Mutant = "ignore_skips_delete" /\ c.ignore THEN POk(s.heap, <<>>)
            ELSE DelOp(s.heap, c.flags, s.cur, st)
       s1 == [s EXCEPT !.heap = r.heap, !.log = @ \o r.evs]
-  IN IF r.ok THEN Finish(s1, TRUE, "")
+      next == IF s.queue # <<>> THEN [s1 EXCEPT !.cur = Head(s.queue), !.queue = Tail(s.queue)]   \* next match
+              ELSE Finish(s1, TRUE, "")
+  IN IF r.ok THEN next
      ELSE IF Translated(st, Handler(s.heap, s.cur), r.exc)
-          THEN (IF c.ignore THEN Finish(s1, TRUE, "") ELSE Finish(s1, FALSE, "PathDeleteError"))
+          THEN (IF c.ignore THEN next ELSE Finish(s1, FALSE, "PathDeleteError"))
      ELSE Finish(s1, FALSE, r.exc)
 
 StepF(s) ==
@@ -361,9 +426,10 @@ MachineNext == EvalVal \/ FetchParent \/ FactoryCall \/ BuildTail \/ Store \/ De
 \* ---- state laws (every reachable state, not only the last) ---------------------------
 Running == pc \in {"evalval", "fetch", "factory", "tail", "store", "del"}
 \* no pre-existing cell changes before the final step
-NoEarlyWrite == Running => Pre(case, heap) = case.heap0
+Plain == ~HasStar(case.steps)
+NoEarlyWrite == Running /\ Plain => Pre(case, heap) = case.heap0
 \* a write into the pre-existing structure is the last thing that happens
-AttachLast == (Running \/ pc = "done") => AttachLastLog(case, log)
+AttachLast == (Running \/ pc = "done") /\ Plain => AttachLastLog(case, log)
 \* one factory call per absent segment, never more
 FactoryLaw == (Running \/ pc = "done") =>
                 /\ nfac = FactoryCalls(log)
@@ -374,12 +440,12 @@ Outcome == pc = "done" => Conforms(case, Ref(case), out.ok, out.mech, out.v, hea
 \* existing intermediate values are never replaced when segments are created
 NeverReplaced == pc = "done" /\ out.ok /\ case.kind = "assign" /\ nfac > 0 => KeepsEntries(case, heap)
 \* reading the path afterwards yields the value (targets without cycles through the path)
-ReadBack == pc = "done" /\ out.ok /\ case.kind = "assign" =>
+ReadBack == pc = "done" /\ out.ok /\ case.kind = "assign" /\ Plain =>
               LET r == PathEval(heap, case.root, case.steps)
                   v == ValOf(case.heap0, case.root, case.val)
               IN r.ok /\ r.v = v.v
 \* a failed or ignored delete, and everything but the addressed entry, leaves cells as they were
-DelFrame == pc = "done" /\ case.kind = "delete" =>
+DelFrame == pc = "done" /\ case.kind = "delete" /\ Plain =>
               LET changed == {a \in 1..N0(case) : heap[a] # case.heap0[a]} IN
               /\ Len(heap) = N0(case)
               /\ Cardinality(changed) <= 1
